@@ -1,11 +1,15 @@
 package main
 
 import (
+	"context"
 	"encoding/json"
 	"errors"
 	"fmt"
 	"io"
 	"math/rand"
+	"net"
+	"os"
+	"syscall"
 
 	"github.com/cloudwego/gopkg/bufiox"
 )
@@ -28,9 +32,30 @@ type RdCase struct {
 	Seed   int    `json:"seed"`
 	Chunks []int  `json:"chunks"` // cyclic chunk schedule: k>0 at most k bytes, 0 empty read, -1 as much as fits
 	Ops    []RdOp `json:"ops"`
+	// ErrKind (with fk = ERR): which error value the source fails with: "" = a private sentinel, or one of the well-known
+	// ones a real connection produces (EINTR, EAGAIN, deadline exceeded, closed, cancelled; bare or wrapped)
+	ErrKind string `json:"errkind,omitempty"`
 }
 
 var errInjected = errors.New("verif: injected source error")
+
+// wellKnownSrcErrs: error values of real sources. For the reader they are all just "the source's own error".
+var wellKnownSrcErrs = map[string]error{
+	"EINTR":      syscall.EINTR,
+	"EAGAIN":     syscall.EAGAIN,
+	"WRAPEINTR":  os.NewSyscallError("read", syscall.EINTR),
+	"PATHEINTR":  &os.PathError{Op: "read", Path: "/dev/x", Err: syscall.EINTR},
+	"TIMEOUT":    os.ErrDeadlineExceeded,
+	"CLOSED":     net.ErrClosed,
+	"CANCEL":     context.Canceled,
+	"CLOSEDPIPE": io.ErrClosedPipe,
+	"SHORTBUF":   io.ErrShortBuffer,
+}
+
+var errReleaseArg = errors.New("verif: the error handed to Release")
+
+// curSrcErr is the error value of the case being run (the drivers run cases one after the other)
+var curSrcErr error = errInjected
 
 // patSource is the io.Reader fault/fragmentation machine of the IOSource part of the specification.
 type patSource struct {
@@ -43,11 +68,15 @@ type patSource struct {
 	w            *TraceWriter
 	handed       int // bytes handed over so far
 	quiet        bool
+	errKind      string
 }
 
 func (s *patSource) err() error {
 	if s.fk == "EOF" {
 		return io.EOF
+	}
+	if e, ok := wellKnownSrcErrs[s.errKind]; ok {
+		return e
 	}
 	return errInjected
 }
@@ -93,7 +122,7 @@ func errClass(err error) string {
 		return "nil"
 	case errors.Is(err, io.EOF):
 		return "EOF"
-	case errors.Is(err, errInjected):
+	case errors.Is(err, errInjected) || (curSrcErr != nil && errors.Is(err, curSrcErr)):
 		return "ERR"
 	case errors.Is(err, io.ErrNoProgress):
 		return "NOPROG"
@@ -126,7 +155,8 @@ func runRdCase(raw json.RawMessage, w *TraceWriter) {
 		callerCopy = append([]byte(nil), callerBuf[:cap(callerBuf)]...)
 		r = bufiox.NewBytesReader(callerBuf)
 	} else {
-		src := &patSource{seed: cs.Seed, S: cs.S, fk: cs.Fk, wd: cs.Wd, chunks: cs.Chunks, w: w}
+		src := &patSource{seed: cs.Seed, S: cs.S, fk: cs.Fk, wd: cs.Wd, chunks: cs.Chunks, w: w, errKind: cs.ErrKind}
+		curSrcErr = src.err()
 		r = bufiox.NewDefaultReader(src)
 	}
 	_ = callerCopy
@@ -142,7 +172,11 @@ func runRdCase(raw json.RawMessage, w *TraceWriter) {
 					}
 				}()
 				rmarkPos = hint
-				r.Release(nil)
+				if op.N%3 == 1 { // the argument ("the error the release depends on") changes nothing
+					r.Release(errReleaseArg)
+				} else {
+					r.Release(nil)
+				}
 				w.Ev("release", "rl", r.ReadLen(), "st", rdStateJSON(st))
 			}()
 			continue
@@ -346,6 +380,20 @@ func genRdCases(c *Ctx) []json.RawMessage {
 		seed++
 		add(RdCase{Fl: "io", S: 20000 + 10*nsmall + 5010, Fk: "EOF", Wd: nsmall%2 == 0, Seed: seed % 251, Chunks: []int{20000, 10, 10, 10, 10, 10, 10, 10, 10, 10, 10, 10, 10, 5000}, Ops: ops})
 	}
+	// every well-known source error, delivered with the last data and separately, at several stream positions
+	for _, ek := range []string{"EINTR", "EAGAIN", "WRAPEINTR", "PATHEINTR", "TIMEOUT", "CLOSED", "CANCEL", "CLOSEDPIPE", "SHORTBUF"} {
+		for _, wd := range []bool{true, false} {
+			for _, S := range []int{5, 100, 5000} {
+				for _, ch := range [][]int{{-1}, {3}, {1000, 0}} {
+					seed++
+					add(RdCase{Fl: "io", S: S, Fk: "ERR", ErrKind: ek, Wd: wd, Seed: seed % 251, Chunks: ch,
+						Ops: []RdOp{{"next", 3}, {"peek", S - 3}, {"next", S - 4}, {"skip", 1}, {"next", 1}, {"readbinary", 10}}})
+					add(RdCase{Fl: "io", S: S, Fk: "ERR", ErrKind: ek, Wd: wd, Seed: seed % 251, Chunks: ch,
+						Ops: []RdOp{{"readbinary", S + 7}, {"next", 1}}})
+				}
+			}
+		}
+	}
 	// seeded random histories
 	rng := rand.New(rand.NewSource(c.Seed*7919 + 4))
 	nrand := c.Pick(1500, 20000)
@@ -353,6 +401,7 @@ func genRdCases(c *Ctx) []json.RawMessage {
 		cs := RdCase{Fl: "io", Fk: "EOF", Seed: rng.Intn(251)}
 		if rng.Intn(4) == 0 {
 			cs.Fk = "ERR"
+			cs.ErrKind = []string{"", "EINTR", "EAGAIN", "WRAPEINTR", "PATHEINTR", "TIMEOUT", "CLOSED", "CANCEL", "CLOSEDPIPE", "SHORTBUF"}[rng.Intn(10)]
 		}
 		cs.Wd = rng.Intn(2) == 0
 		switch rng.Intn(5) {
@@ -450,7 +499,7 @@ func genRdCases(c *Ctx) []json.RawMessage {
 }
 
 func checkC04(c *Ctx) {
-	c.rule = "MC: every behaviour of ReaderImpl (real constants) within the cfg bounds is accepted by ReaderAbs. TRACE: one case = (reader flavour, stream, source fault/fragmentation policy, operation history); bounded-exhaustive histories over a boundary-valued alphabet x source behaviours plus seeded random histories; every case is executed on the real bufiox reader and every event is judged by TLC against ReaderAbs (violations) and ReaderImpl (drift)."
+	c.rule = "MC: every behaviour of ReaderImpl (real constants) within the cfg bounds is accepted by ReaderAbs. TRACE: one case = (reader flavour, stream, source fault/fragmentation policy, operation history); bounded-exhaustive histories over a boundary-valued alphabet x source behaviours (incl. the well-known error values of real connections: EINTR, EAGAIN, deadline, closed, cancelled, bare and wrapped, with and without data) plus seeded random histories; every case is executed on the real bufiox reader and every event is judged by TLC against ReaderAbs (violations) and ReaderImpl (drift)."
 	if c.Thorough() {
 		c.MC("MC_BufReader.tla", "MC_BufReader_thorough.cfg", 12)
 	} else {
